@@ -246,7 +246,7 @@ def k5_queries(num, tier, only=None):
             ns = [2] if (tier == 'quick' or cont in heavy) else [2, 3]
             combos = []
             for n in ns:
-                for rm in plan.RMETHODS:
+                for rm in plan.rmethods(cont):
                     if tier == 'quick':
                         rlens = [1] if (cont in heavy and rm == 'insert_range') else [2]
                     else:
@@ -382,7 +382,7 @@ def lift_and_replay(ev, num, q, clause_prop=None):
     if m['kind'] == 'k1':
         lines = core.history_lines(vals, m['k'])
     elif m['kind'] == 'k5' and m['mode'] == 1:
-        lines = core.state_lines(vals, m['rlen'], 'kind range %d %d' % (plan.RMETHODS[m['rmethod']], m['rlen']))
+        lines = core.state_lines(vals, m['rlen'], 'kind range %d %d' % (plan.RM_ALL[m['rmethod']], m['rlen']))
     elif m['kind'] == 'k5' and m['mode'] == 3:
         lines = core.state_lines(vals, 2, 'kind twin')
     else:
